@@ -327,6 +327,9 @@ pub fn setup(rng: &mut Rng, ops: &mut Vec<String>, ctx: &mut Ctx, salts: bool) {
     if rng.chance(1, 4) {
         ops.push(format!("block {} {}", rng.range(1, 1000), rng.range(1, 2_000_000_000) * 1_000_000_000));
     }
+    if rng.chance(1, 8) {
+        ops.push(format!("block-chain {}", rng.pick(&["demo-chain-7", "x"])));
+    }
     let admins = ["u1", "~", "u2"];
     let specs = [(1u64, 0u64), (2, 1), (1, 2)];
     for (k, (code, inst)) in specs.iter().enumerate() {
@@ -502,6 +505,9 @@ pub fn gen_wasm(rng: &mut Rng, thorough: bool) -> Vec<String> {
             if rng.chance(1, 2) {
                 ops.push("next-block".into());
             } else {
+                if rng.chance(1, 3) {
+                    ops.push(format!("block-chain {}", rng.pick(&["demo-chain-7", "x", "cosmos-testnet-14002", "a%20b"])));
+                }
                 let h = if rng.chance(1, 3) { "same".to_string() } else { rng.range(1, 100000).to_string() };
                 ops.push(format!("block {} {}", h, rng.range(1, 2_000_000_000) * 1_000_000_000));
             }
